@@ -294,10 +294,10 @@ def gen_run(rng):
 
 
 def gen_e2e(rng):
-    """<sample_count> <sample_size> <thread counts> <per-input counter 0|1><allocation mode 0|a|i|x|r> <seed>"""
+    """<sample_count> <sample_size> <thread counts> <per-input counter 0|1|2|3><allocation mode 0|a|i|x|r> <seed>"""
     th = rng.choice(["1", "2", "3", "1,2", "1,2", "2,1", "1,2,3", "3,1,2", "1,2,4", "2,2", "1,3"])
     return (f"{rng.choice([1, 2, 3, 4, 5, 7, 8])} {rng.choice([1, 1, 2, 3, 5])} {th} "
-            f"{rng.randrange(2)}{rng.choice('00iiixar')} {rng.randrange(1000)}")
+            f"{rng.choice('01223')}{rng.choice('00iiixar')} {rng.randrange(1000)}")
 
 
 # --------------------------------------------------------------------------
@@ -368,7 +368,7 @@ def streams(tier, rng):
         runs.append(gen_run(rng))
 
     e2e = corpus_cases("C05-e2e") + ["5 2 1,2 0 3", "4 3 2 1 3", "7 1 1,2,3 1 9", "3 2 2,1 1 4", "1 5 1,3 0 8",
-                                      "6 1 1,2 0i 3", "4 3 2 1a 3", "7 1 1 0i 5", "5 1 1,2,3 0x 8", "8 2 1,2 1r 2"]
+                                      "6 1 1,2 2i 3", "7 1 1,2 20 6", "8 2 1,3 30 4", "5 1 2 10 9", "6 1 1,2 0i 3", "4 3 2 1a 3", "7 1 1 0i 5", "5 1 1,2,3 0x 8", "8 2 1,2 1r 2"]
     while len(e2e) < (60 if quick else 800):
         e2e.append(gen_e2e(rng))
 
@@ -407,7 +407,9 @@ def streams(tier, rng):
                         "(fastest/slowest/median/mean as 4-digit truncations, samples, iters) must stand for the statistics "
                         "and the allocation blocks shown under it (max alloc / alloc / dealloc / grow / shrink; calls allocate "
                         "only in the middle time classes, only in the extreme ones, always, at random or never) must be exactly "
-                        "those with a non-zero figure in some sample "
+                        "those with a non-zero figure in some sample, and every throughput cell (per-input item counts independent "
+                        "of, anti-correlated or correlated with the sample time) must be based on the count of a sample that "
+                        "supplied that column's time (mean: the mean count) "
                         "of exactly that run's samples (model: compute_stats; Sb: the declarative order statistics)"),
         Stream("real-runs-release", "run_rel", runs[: len(runs) // 2], compare=compare_run, model_input=mi, release=True,
                nontrivial=lambda c, m: m.startswith("IN ") and len(m.split(" ")) > 2 and m.split(" ")[2].count(",") >= 1),
